@@ -107,21 +107,30 @@ func (bf *buffer) ID() int64 {
 }
 
 func (bf *buffer) Close() error {
+	verifYield(10)
 	atomic.StoreInt64(&bf.done, 1)
 
+	verifYield(11)
 	bf.pcond.L.Lock()
+	verifYield(12)
 	bf.pcond.Broadcast()
+	verifYield(13)
 	bf.pcond.L.Unlock()
 
-	bf.pcond.L.Lock()
+	verifYield(14)
+	bf.ccond.L.Lock()
+	verifYield(15)
 	bf.ccond.Broadcast()
-	bf.pcond.L.Unlock()
+	verifYield(16)
+	bf.ccond.L.Unlock()
 
 	return nil
 }
 
 func (bf *buffer) Len() int {
+	verifYield(20)
 	cpos := bf.cseq.get()
+	verifYield(21)
 	ppos := bf.pseq.get()
 	return int(ppos - cpos)
 }
@@ -132,6 +141,7 @@ func (bf *buffer) ReadFrom(r io.Reader) (int64, error) {
 	total := int64(0)
 
 	for {
+		verifYield(110)
 		if bf.isDone() {
 			return total, io.EOF
 		}
@@ -147,6 +157,7 @@ func (bf *buffer) ReadFrom(r io.Reader) (int64, error) {
 			pend = bf.size
 		}
 
+		verifYield(111)
 		n, err := r.Read(bf.buf[pstart:pend])
 
 		if n > 0 {
@@ -169,6 +180,7 @@ func (bf *buffer) WriteTo(w io.Writer) (int64, error) {
 	total := int64(0)
 
 	for {
+		verifYield(120)
 		if bf.isDone() {
 			return total, io.EOF
 		}
@@ -177,6 +189,7 @@ func (bf *buffer) WriteTo(w io.Writer) (int64, error) {
 
 		// There's some data, let's process it first
 		if len(p) > 0 {
+			verifYield(121)
 			n, err := w.Write(p)
 			total += int64(n)
 			//glog.Debugf("Wrote %d bytes, totaling %d bytes", n, total)
@@ -198,6 +211,7 @@ func (bf *buffer) WriteTo(w io.Writer) (int64, error) {
 }
 
 func (bf *buffer) Read(p []byte) (int, error) {
+	verifYield(60)
 	if bf.isDone() && bf.Len() == 0 {
 		//glog.Debugf("isDone and len = %d", this.Len())
 		return 0, io.EOF
@@ -206,7 +220,9 @@ func (bf *buffer) Read(p []byte) (int, error) {
 	pl := int64(len(p))
 
 	for {
+		verifYield(61)
 		cpos := bf.cseq.get()
+		verifYield(62)
 		ppos := bf.pseq.get()
 		cindex := cpos & bf.mask
 
@@ -220,11 +236,16 @@ func (bf *buffer) Read(p []byte) (int, error) {
 		//    buffer to p, and copy will just copy until the end of the buffer and stop.
 		//    The number of bytes will NOT be len(p) but less than that.
 		if cpos+pl < ppos {
+			verifYield(63)
 			n := copy(p, bf.buf[cindex:])
 
+			verifYield(64)
 			bf.cseq.set(cpos + int64(n))
+			verifYield(65)
 			bf.pcond.L.Lock()
+			verifYield(66)
 			bf.pcond.Broadcast()
+			verifYield(67)
 			bf.pcond.L.Unlock()
 
 			return n, nil
@@ -244,6 +265,7 @@ func (bf *buffer) Read(p []byte) (int, error) {
 
 			// if cindex+n < size, that means we can copy all n bytes into p.
 			// No wrapping in this case.
+			verifYield(68)
 			if cindex+b < bf.size {
 				n = copy(p, bf.buf[cindex:cindex+b])
 			} else {
@@ -251,9 +273,13 @@ func (bf *buffer) Read(p []byte) (int, error) {
 				n = copy(p, bf.buf[cindex:])
 			}
 
+			verifYield(69)
 			bf.cseq.set(cpos + int64(n))
+			verifYield(70)
 			bf.pcond.L.Lock()
+			verifYield(71)
 			bf.pcond.Broadcast()
+			verifYield(72)
 			bf.pcond.L.Unlock()
 			return n, nil
 		}
@@ -261,20 +287,29 @@ func (bf *buffer) Read(p []byte) (int, error) {
 		// If we got here, that means cpos >= ppos, which means there's no data available.
 		// If so, let's wait...
 
+		verifYield(73)
 		bf.ccond.L.Lock()
+		verifYield(74)
 		for ppos = bf.pseq.get(); cpos >= ppos; ppos = bf.pseq.get() {
+			verifYield(75)
 			if bf.isDone() {
+				verifYield(76)
+				bf.ccond.L.Unlock()
 				return 0, io.EOF
 			}
 
 			bf.cwait++
+			verifYield(77)
 			bf.ccond.Wait()
+			verifYield(78)
 		}
+		verifYield(79)
 		bf.ccond.L.Unlock()
 	}
 }
 
 func (bf *buffer) Write(p []byte) (int, error) {
+	verifYield(40)
 	if bf.isDone() {
 		return 0, io.EOF
 	}
@@ -286,11 +321,16 @@ func (bf *buffer) Write(p []byte) (int, error) {
 
 	// If we are here that means we now have enough space to write the full p.
 	// Let's copy from p into this.buf, starting at position ppos&this.mask.
+	verifYield(41)
 	total := ringCopy(bf.buf, p, int64(start)&bf.mask)
 
+	verifYield(42)
 	bf.pseq.set(start + int64(len(p)))
+	verifYield(43)
 	bf.ccond.L.Lock()
+	verifYield(44)
 	bf.ccond.Broadcast()
+	verifYield(45)
 	bf.ccond.L.Unlock()
 
 	return total, nil
@@ -313,19 +353,29 @@ func (bf *buffer) ReadPeek(n int) ([]byte, error) {
 		return nil, bufio.ErrNegativeCount
 	}
 
+	verifYield(80)
 	cpos := bf.cseq.get()
+	verifYield(81)
 	ppos := bf.pseq.get()
 
 	// If there's no data, then let's wait until there is some data
+	verifYield(82)
 	bf.ccond.L.Lock()
-	for ; cpos >= ppos; ppos = bf.pseq.get() {
+	verifYield(83)
+	for ppos = bf.pseq.get(); cpos >= ppos; ppos = bf.pseq.get() {
+		verifYield(84)
 		if bf.isDone() {
+			verifYield(85)
+			bf.ccond.L.Unlock()
 			return nil, io.EOF
 		}
 
 		bf.cwait++
+		verifYield(86)
 		bf.ccond.Wait()
+		verifYield(87)
 	}
+	verifYield(88)
 	bf.ccond.L.Unlock()
 
 	// m = the number of bytes available. If m is more than what's requested (n),
@@ -347,6 +397,7 @@ func (bf *buffer) ReadPeek(n int) ([]byte, error) {
 		// the data wrapped
 		if cindex+m > bf.size {
 			// reset the tmp buffer
+			verifYield(89)
 			bf.tmp = bf.tmp[0:0]
 
 			l := len(bf.buf[cindex:])
@@ -372,7 +423,9 @@ func (bf *buffer) ReadWait(n int) ([]byte, error) {
 		return nil, bufio.ErrNegativeCount
 	}
 
+	verifYield(90)
 	cpos := bf.cseq.get()
+	verifYield(91)
 	ppos := bf.pseq.get()
 
 	// This is the magic read-to position. The producer position must be equal or
@@ -380,14 +433,22 @@ func (bf *buffer) ReadWait(n int) ([]byte, error) {
 	next := cpos + int64(n)
 
 	// If there's no data, then let's wait until there is some data
+	verifYield(92)
 	bf.ccond.L.Lock()
-	for ; next > ppos; ppos = bf.pseq.get() {
+	verifYield(93)
+	for ppos = bf.pseq.get(); next > ppos; ppos = bf.pseq.get() {
+		verifYield(94)
 		if bf.isDone() {
+			verifYield(95)
+			bf.ccond.L.Unlock()
 			return nil, io.EOF
 		}
 
+		verifYield(96)
 		bf.ccond.Wait()
+		verifYield(97)
 	}
+	verifYield(98)
 	bf.ccond.L.Unlock()
 
 	// If we are here that means we have at least n bytes of data available.
@@ -397,6 +458,7 @@ func (bf *buffer) ReadWait(n int) ([]byte, error) {
 	// the data wrapped
 	if cindex+int64(n) > bf.size {
 		// reset the tmp buffer
+		verifYield(99)
 		bf.tmp = bf.tmp[0:0]
 
 		l := len(bf.buf[cindex:])
@@ -421,7 +483,9 @@ func (bf *buffer) ReadCommit(n int) (int, error) {
 		return 0, bufio.ErrNegativeCount
 	}
 
+	verifYield(100)
 	cpos := bf.cseq.get()
+	verifYield(101)
 	ppos := bf.pseq.get()
 
 	// If consumer position is at least n less than producer position, that means
@@ -434,9 +498,13 @@ func (bf *buffer) ReadCommit(n int) (int, error) {
 	//    buffer to p, and copy will just copy until the end of the buffer and stop.
 	//    The number of bytes will NOT be len(p) but less than that.
 	if cpos+int64(n) <= ppos {
+		verifYield(102)
 		bf.cseq.set(cpos + int64(n))
+		verifYield(103)
 		bf.pcond.L.Lock()
+		verifYield(104)
 		bf.pcond.Broadcast()
+		verifYield(105)
 		bf.pcond.L.Unlock()
 		return n, nil
 	}
@@ -469,22 +537,32 @@ func (bf *buffer) WriteCommit(n int) (int, error) {
 	}
 
 	// If we are here then there's enough bytes to commit
+	verifYield(50)
 	bf.pseq.set(start + int64(cnt))
 
+	verifYield(51)
 	bf.ccond.L.Lock()
+	verifYield(52)
 	bf.ccond.Broadcast()
+	verifYield(53)
 	bf.ccond.L.Unlock()
 
 	return cnt, nil
 }
 
 func (bf *buffer) waitForWriteSpace(n int) (int64, int, error) {
+	if int64(n) > bf.size {
+		return 0, 0, bufio.ErrBufferFull
+	}
+
+	verifYield(30)
 	if bf.isDone() {
 		return 0, 0, io.EOF
 	}
 
 	// The current producer position, remember it's a forever inreasing int64,
 	// NOT the position relative to the buffer
+	verifYield(31)
 	ppos := bf.pseq.get()
 
 	// The next producer position we will get to if we write len(p)
@@ -534,16 +612,24 @@ func (bf *buffer) waitForWriteSpace(n int) (int64, int, error) {
 	//
 	if wrap > gate || gate > ppos {
 		var cpos int64
+		verifYield(32)
 		bf.pcond.L.Lock()
+		verifYield(33)
 		for cpos = bf.cseq.get(); wrap > cpos; cpos = bf.cseq.get() {
+			verifYield(34)
 			if bf.isDone() {
+				verifYield(35)
+				bf.pcond.L.Unlock()
 				return 0, 0, io.EOF
 			}
 
 			bf.pwait++
+			verifYield(36)
 			bf.pcond.Wait()
+			verifYield(37)
 		}
 
+		verifYield(38)
 		bf.pseq.gate = cpos
 		bf.pcond.L.Unlock()
 	}
